@@ -52,7 +52,14 @@ func verifC02(maxChunks int, sizes []int) {
 	} else {
 		conn.reads = []verifSRead{{data: stream}}
 	}
+	// the connection may deliver its last bytes together with the end of the stream
+	if verifC02EOFWithData {
+		conn.eofWithData = verifFlag("client-eof-with-last-bytes")
+	}
 	target := &verifStreamConn{name: "target", glog: &glog, remote: &net.TCPAddr{IP: net.IPv4(93, 184, 216, 34), Port: 80}}
+	if verifC02EOFWithData {
+		target.eofWithData = verifFlag("target-eof-with-last-bytes")
+	}
 	var back []byte
 	nt := verifChoice("ntarget", 3)
 	for i := 0; i < nt; i++ {
@@ -111,6 +118,16 @@ func verifC02(maxChunks int, sizes []int) {
 }
 
 func VH_C02_relay() { verifC02(1, []int{1, 3}) }
+
+var verifC02EOFWithData bool
+
+// connections that deliver their last bytes together with the end of the stream (io.Reader
+// allows it; TLS and in-memory connections do it)
+func VH_C02_eof_with_data() {
+	verifC02EOFWithData = true
+	defer func() { verifC02EOFWithData = false }()
+	verifC02(1, []int{3})
+}
 
 func VH_C02_relay_T() { verifC02(2, []int{1, 40}) }
 
